@@ -144,3 +144,40 @@ Example C03_failing_setup_witness :
   rbegins r1 = [OFxSetup 1; OFxSetup 2] /\ rs_failed r1 = true /\
   rbegins (run_teardown_funcs (fun _ => IGlobal) None kept r_init) = [OFxTeardown 1].
 Proof. exact failing_setup_witness. Qed.
+
+(* A whole test task (TestTask.run, Model/TaskSem.v test_run), whatever its hooks, fixtures and body do, unless a BaseException
+   killed the worker: the user code entered is setup_test, then the test-scoped fixtures in schedule order — stopping after the
+   first setup that records a failure —, then the body, only if every setup completed without a failure, then the teardowns of
+   exactly what was set up, in reverse order of setup (the fixture set up last first, teardown_test last). *)
+Theorem C03_test_task_user_code_order : forall env p suite t hk fxs,
+  to_res (test_run env p suite t hk fxs) <> TkDied ->
+  exists done rest, test_pairs p hk fxs = done ++ rest /\
+    begins (to_main (test_run env p suite t hk fxs)) =
+      setups_of done ++ (match rest with q :: _ => sf_owners (fst q) | [] => [OBody p] end) ++
+      rev (teardowns_of (map snd done)).
+Proof. exact test_run_user_code_order. Qed.
+Print Assumptions C03_test_task_user_code_order.
+Example C03_test_task_order_witness :
+  let hk := mkHooks None None (Some []) (Some []) in
+  let fxs := [mkFixture 1 ScTest [] false false true [] []; mkFixture 2 ScTest [] false false true [] []] in
+  begins (to_main (test_run (fun _ => IGlobal) [5; 7] [5] (mkTest 7 false [] [] [] []) hk fxs)) =
+  [OSetupTest [5; 7]; OFxSetup 1; OFxSetup 2; OBody [5; 7]; OFxTeardown 2; OFxTeardown 1; OTeardownTest [5; 7]].
+Proof. exact test_run_order_witness. Qed.
+
+(* The suite / session phases are TWO tasks: the setup task keeps the teardowns of what it set up (to_kept), the matching
+   teardown task — which starts after every consumer has finished, whatever their outcome: C03_setup_before_consumers_teardown_after —
+   receives them. For every list of pairs (fixtures of the scope in schedule order, inject_fixtures, setup_suite /
+   teardown_suite) and whatever the user code does, unless a worker died: the setup task enters the setups in order and stops at
+   the first that records a failure; it ends with Success exactly when none did; the teardown task enters the teardowns of
+   exactly the completed setups, each once, in reverse order. *)
+Theorem C03_setup_task_then_teardown_task : forall env env' l l' st en isst d st' en' isst' d' pairs,
+  to_res (setup_phase env l st en isst d pairs) <> TkDied ->
+  to_res (teardown_phase env' l' st' en' isst' d' (to_kept (setup_phase env l st en isst d pairs))) <> TkDied ->
+  exists done rest, pairs = done ++ rest /\
+    begins (to_main (setup_phase env l st en isst d pairs)) =
+      setups_of done ++ (match rest with q :: _ => sf_owners (fst q) | [] => [] end) /\
+    begins (to_main (teardown_phase env' l' st' en' isst' d' (to_kept (setup_phase env l st en isst d pairs)))) =
+      rev (teardowns_of (map snd done)) /\
+    (rest = [] <-> to_res (setup_phase env l st en isst d pairs) = TkSuccess).
+Proof. exact setup_phase_then_teardown_phase. Qed.
+Print Assumptions C03_setup_task_then_teardown_task.
